@@ -1624,7 +1624,27 @@ def shrink(violation):
 
 
 MANIFEST = {
-    'technique': 'Lean 4 theorems over an executable model of the Transpiler + generated operator table + differential correspondence',
-    'text': ('see notes/reports/C02.md'),
-    'note': (''),
+    'technique': 'Lean 4 theorems over an executable model of Transpiler driven by the generated operator table + '
+                 'two semantics (MathML 2 reference, SymPy term) + differential correspondence',
+    'text': ('Proved in Lean (lean/Cellml/Props/C02.lean, standard axioms only). (1) table_<tag>, one theorem per tag over the '
+             'operator table re-generated from parser.py on every run: the SymPy class computes what MathML 2 says the '
+             'element means (49 tags; rem -> Mod is the proved exception), key set, n-ary relation set, handler keys, '
+             'class arities = MathML arities except ln. (2) transpile_sound_partial: for EVERY tree (induction, any '
+             'depth), every interpretation of identifiers / transcendental functions / real powers: if transpile t = ok e '
+             'and MathML 2 gives t the value v then the SymPy term e evaluates to v; fragment: ci, cn plain and '
+             'e-notation, constants, plus/times/minus/divide/power, root with degree, log with logbase, abs/floor/ceiling/'
+             'max/min/exp/ln/24 trigonometric names, chained relations, neq, and/or/xor/not, piecewise; hypotheses exclude '
+             'exactly one-child <apply> and <rem/>, for both of which the full statement is proved FALSE of the model '
+             '(and replayed on the code). diff_shape: derivative operands land in Derivative(y, x, n). (3) '
+             'transpile_rejects_*: unknown element anywhere, piece/otherwise/degree/bvar/apply/logbase arities, <cn> type / '
+             'e-notation shape / malformed text, operand counts of every operator => error; the inputs that are NOT '
+             'rejected are theorems too. Tie: 5 500 exhaustive + N random trees per run through Transpiler().parse_string '
+             'versus the compiled model (outcome class exactly; value of the model term against SymPy\'s own value at 6 '
+             'environments); independent oracle = mpmath reference interpreter of MathML 2 over the reals. 15 known '
+             'findings (findings/C02.json).'),
+    'note': ('Trusted: Lean kernel; propext, Classical.choice, Quot.sound; the translator for the three tables; the '
+             'correspondence harness. SymPy 1.14 is modelled, not verified (class arities, operand sorts, meaning of each '
+             'class): validated numerically on every run. Transcendental functions, real powers, derivatives are '
+             'uninterpreted in the theorems. Ill-sorted trees and SymPy-internal failures are outside the model '
+             '(the model abstains, the check does not compare them). Numbers are exact rationals in the model.'),
 }
